@@ -43,6 +43,13 @@ type AtCall struct {
 	Used   bool
 }
 
+// AtReturn: an assertion at the k-th return statement (source order) with locals in scope.
+type AtReturn struct {
+	Ord  int
+	C    Clause
+	Used bool
+}
+
 type LoopContract struct {
 	Ordinal    int
 	Invariants []Clause
@@ -70,10 +77,11 @@ type FuncContract struct {
 	CheckAsserts   bool
 	Lemmas         []Clause // assert-style lemmas proved at function entry under requires
 	AtCalls        []AtCall // assertions attached to call sites of the body
-	NoNilCheck     bool     // nil-dereference obligations are assumed instead of proved (reported)
-	TrustFrame     bool     // the modifies clause is assumed, not checked against the body (reported)
-	AnchorsOnly    bool     // only at-call assertions and postconditions are proved; safety checks and callee preconditions are assumed (reported)
-	DynNoEffect    bool     // calls through function values are assumed not to touch modelled memory (reported)
+	AtReturns      []AtReturn
+	NoNilCheck     bool // nil-dereference obligations are assumed instead of proved (reported)
+	TrustFrame     bool // the modifies clause is assumed, not checked against the body (reported)
+	AnchorsOnly    bool // only at-call assertions and postconditions are proved; safety checks and callee preconditions are assumed (reported)
+	DynNoEffect    bool // calls through function values are assumed not to touch modelled memory (reported)
 	Witness        []string
 	File           string
 	Line           int
@@ -325,6 +333,21 @@ func (cs *ContractSet) LoadContractFile(path, pkgPath string) error {
 				return fmt.Errorf("%s:%d: at outside func", path, ln)
 			}
 			f := strings.Fields(rest)
+			if len(f) >= 4 && f[0] == "return" && f[2] == "assert" {
+				// at return <k> assert <expr>: checked at the k-th return statement in source order, with the
+				// function's locals in scope
+				ord, aerr := strconv.Atoi(f[1])
+				if aerr != nil || ord < 1 {
+					return fmt.Errorf("%s:%d: bad return ordinal", path, ln)
+				}
+				src := strings.TrimSpace(rest[strings.Index(rest, " assert ")+len(" assert "):])
+				e, err := parseExpr(src)
+				if err != nil {
+					return fmt.Errorf("%s:%d: %v", path, ln, err)
+				}
+				cur.AtReturns = append(cur.AtReturns, AtReturn{Ord: ord, C: Clause{E: e, Src: src, File: filepath.Base(path), Line: ln}})
+				break
+			}
 			if len(f) < 4 || f[0] != "call" || (f[2] != "assert" && f[2] != "assert-after" && f[2] != "assume-after") {
 				return fmt.Errorf("%s:%d: expected `at call <callee>#<k> assert|assert-after <expr>`", path, ln)
 			}
